@@ -225,6 +225,28 @@ def gen_cases(ctx, extra_bias=None):
                         cases.append(mk(gi, st["rcpt"], st["payload"], amt=st.get("amt", 0), **kw))
     ncorpus = len(cases)
     setups = {"aergo.system": SYS_SETUP, "aergo.name": NAME_SETUP, "aergo.enterprise": ENT_SETUP}
+    # staking / voting life cycles over several blocks: re-votes (SubVote old + AddVote new), partial and
+    # full unstake (refreshAllVote over every issue), two voters sharing candidates
+    for _ in range(3 if quick else 40):
+        gi = newg()
+        ps = [peer_id(rng) for _ in range(4)]
+        fork = rng.choice([2, 3])
+        sysc = lambda c, **kw: mk(gi, "aergo.system", c, fork=fork, **kw)
+        cases.append(sysc(ci("v1stake", []), amt=15000 * AERGO, bno=1))
+        cases.append(sysc(ci("v1stake", []), amt=12000 * AERGO, snd=1, bno=1))
+        cases.append(sysc(ci("v1voteBP", ps[:2]), bno=2))
+        cases.append(sysc(ci("v1voteBP", ps[1:3]), snd=1, bno=2))
+        cases.append(sysc(ci("v1voteDAO", ["BPCOUNT", "13"]), bno=3))
+        cases.append(sysc(ci("v1voteDAO", ["bpcount", rng.choice(["13", "14"])]), snd=1, bno=3))
+        cases.append(sysc(ci("v1voteDAO", ["GASPRICE", "7"]), bno=3))
+        cases.append(sysc(ci("v1voteBP", ps[2:4]), bno=100000))
+        cases.append(sysc(ci("v1voteDAO", ["BPCOUNT", "15"]), bno=100001))
+        cases.append(sysc(ci("v1voteBP", []), snd=1, bno=100002))
+        cases.append(sysc(ci("v1unstake", []), amt=rng.choice([5000, 1, 4999]) * AERGO, bno=200000))
+        cases.append(sysc(ci("v1stake", []), amt=1 * AERGO, snd=1, bno=200001))
+        cases.append(sysc(ci("v1unstake", []), amt=10000 * AERGO, bno=300000))
+        cases.append(sysc(ci("v1unstake", []), amt=13000 * AERGO, snd=1, bno=300001))
+        cases.append(sysc(ci("v1voteBP", ps[:1]), bno=400000))
     # every right shape after its setup, on fork 1..3, by admin / staker and by a stranger
     for rcpt, c, amt in right_shapes(rng):
         for fork in ((rng.choice([1, 2, 3]),) if quick else (0, 1, 2, 3, 4)):
@@ -391,8 +413,8 @@ def coq_case(c, o):
     entv = "(mkEnt %s %s %s %s)" % (cs(v["sender"]), cs(v["admins"]), cconfs(v["confs"]), B(v["cc_set"]))
     rows = []
     for r in o.get("strs") or []:
-        rows.append("(%s, mkRow %s %s %s %s %s %s %d %s %s %s %s %s)" % (
-            cs(r["s"]), cs(r["upper"]), opt(cs(r["addr"]) if r["addr_ok"] else None),
+        rows.append("(%s, mkRow %s %s %s %s %s %s %s %d %s %s %s %s %s)" % (
+            cs(r["s"]), cs(r.get("b58_hex", "")), cs(r["upper"]), opt(cs(r["addr"]) if r["addr_ok"] else None),
             "(Some (%d%%nat,%s))" % (r["b58_len"], B(r["peer_ok"])) if r["b58_ok"] else "None",
             opt(vf.coq_Z(int(r["big"])) + "%Z") if r["big_ok"] else "None", B(r["allowed"]), B(r["list_ok"]), r["rpc_n"],
             B(r["rpc_b64"]), B(r["rpc_w"]), B(r["cc_peer"]), B(r["cc_addr"]), B(r["cc_hex"])))
@@ -401,9 +423,22 @@ def coq_case(c, o):
     post = "None"
     if c["ty"] == GOV and rcpt == b"aergo.enterprise" and ex == "COk":
         post = "(Some (%s,%s))" % (cs(o["post"]["admins"]), cconfs(o["post"]["confs"]))
-    return "(mkCase %s %s (mkState %s %s %s) [%s] [%s] %s %s %s %s)" % (
+    run = "None"
+    if c["ty"] == GOV and rcpt == b"aergo.system" and ex == "COk" and o["decode_ok"]:
+        pv = o["post"]
+        pvotes = dict(pv["votes_dao"])
+        if pv["vote_bp"]:
+            pvotes["voteBP"] = pv["vote_bp"]
+        run = "(Some (mkRunObs [%s] %s [%s] %s [%s] [%s]))" % (
+            ";".join("(%s,%s)" % (cstr(k), cs(r)) for k, r in sorted(v["results"].items())),
+            cs(o.get("jmarshal", "")),
+            ";".join("(%s,[%s])" % (cs(k), ";".join(cs(x) for x in l)) for k, l in sorted(v["junm"].items())),
+            cs(pv["staking"]),
+            ";".join("(%s,%s)" % (cstr(k), cs(r)) for k, r in sorted(pvotes.items())),
+            ";".join("(%s,%s)" % (cstr(k), cs(r)) for k, r in sorted(pv["results"].items())))
+    return "(mkCase %s %s (mkState %s %s %s) [%s] [%s] %s %s %s %s %s)" % (
         env, tx, sysv, namev, entv, ";".join(rows), ";".join(enc),
-        "(%s)" % vt if " " in vt else vt, "(%s)" % vs if " " in vs else vs, "(%s)" % ex if " " in ex else ex, post)
+        "(%s)" % vt if " " in vt else vt, "(%s)" % vs if " " in vs else vs, "(%s)" % ex if " " in ex else ex, post, run)
 
 
 def eval_cases(ctx, cases, obs, tag):
@@ -471,7 +506,12 @@ def unknown_sites(ctx):
     rc, out = ctx.coq_eval("unknown_sites", "\n".join(txt))
     if rc != 0:
         return None
-    return re.findall(r'\("([^"]+)",\s*"([^"]+)",\s*"((?:[^"]|"")*)",\s*(\d+)\)', " ".join(out.split()))
+    flat = " ".join(out.split())
+    found = re.findall(r'\("([^"]+)",\s*"([^"]+)",\s*"((?:[^"]|"")*)",\s*(\d+)(?:%nat)?\)', flat)
+    m = re.search(r"U\s*=\s*(.*?)\s*:\s*list", flat)
+    if m and m.group(1).strip() not in ("[]", "nil") and not found:
+        return None      # printed a non-empty list that could not be parsed
+    return found
 
 
 def panic_key(c, o, stage):
